@@ -305,6 +305,13 @@ def single_impl_rules(facts, rep, D):
                 ok = ok and p == ("str", "") and d.get("fs", ("x",))[0] == "field"
             n += 1
             rep.ob("R06.5", b.id, "root() is the empty path on the same filesystem", ok, "", b.span)
+        b = ms.get("as_str")
+        if b is not None:
+            from ..terms import strip as _strip
+            vn = _strip(get_tracer(facts, b).local(0), extra=("String::as_str", "Deref::deref"))
+            ok = vn[0] == "field" and vn[2] == "path" and vn[1][0] == "arg" and vn[1][1] == 0
+            n += 1
+            rep.ob("R06.5", b.id, "as_str() returns the path field", ok, fmt(vn)[:60], b.span)
         b = ms.get("is_root")
         if b is not None:
             vn = norm(get_tracer(facts, b).local(0))
